@@ -324,6 +324,98 @@ def _inline_local_constants(tree):
     ast.fix_missing_locations(tree)
 
 
+def _bool_flag_tests(tree):
+    """Source normal form: for a local that is only ever bound to truth
+    values (True / False, comparisons, ``not``, ``and`` / ``or`` of such,
+    ``bool()`` / ``isinstance()`` / ``any()`` / ``all()``), ``flag is True``
+    and ``flag == True`` read ``flag``; ``flag is False``, ``flag is not
+    True``, ``flag == False`` read ``not flag``."""
+    def boolish(e, names):
+        if isinstance(e, ast.Constant):
+            return isinstance(e.value, bool)
+        if isinstance(e, ast.Compare):
+            return True
+        if isinstance(e, ast.UnaryOp) and isinstance(e.op, ast.Not):
+            return True
+        if isinstance(e, ast.BoolOp):
+            return all(boolish(v, names) for v in e.values)
+        if isinstance(e, ast.Name):
+            return e.id in names
+        if isinstance(e, ast.Call) and isinstance(e.func, ast.Name) and \
+                e.func.id in ("bool", "isinstance", "any", "all",
+                              "callable", "hasattr", "issubclass"):
+            return True
+        return False
+
+    for fn in list(ast.walk(tree)):
+        if not isinstance(fn, (ast.FunctionDef, ast.AsyncFunctionDef)):
+            continue
+        binds = {}
+        bad = set()
+        for n in ast.walk(fn):
+            if isinstance(n, ast.arg):
+                bad.add(n.arg)
+            elif isinstance(n, (ast.Global, ast.Nonlocal)):
+                bad.update(n.names)
+            elif isinstance(n, ast.Assign):
+                for t in n.targets:
+                    if isinstance(t, ast.Name):
+                        binds.setdefault(t.id, []).append(n.value)
+                    else:
+                        for x in ast.walk(t):
+                            if isinstance(x, ast.Name) and isinstance(
+                                    x.ctx, ast.Store):
+                                bad.add(x.id)
+            elif isinstance(n, (ast.AugAssign, ast.AnnAssign, ast.For,
+                                ast.With, ast.NamedExpr, ast.comprehension,
+                                ast.ExceptHandler, ast.Import,
+                                ast.ImportFrom)):
+                for x in ast.walk(n.target if hasattr(n, "target") and
+                                  n.target is not None else n):
+                    if isinstance(x, ast.Name) and isinstance(
+                            x.ctx, ast.Store):
+                        bad.add(x.id)
+                if isinstance(n, ast.With):
+                    for it in n.items:
+                        if it.optional_vars is not None:
+                            for x in ast.walk(it.optional_vars):
+                                if isinstance(x, ast.Name):
+                                    bad.add(x.id)
+                if isinstance(n, ast.ExceptHandler) and n.name:
+                    bad.add(n.name)
+        flags = set()
+        cand = {k for k in binds if k not in bad}
+        for _ in range(3):
+            flags = {k for k in cand
+                     if all(boolish(v, flags) for v in binds[k])}
+        if not flags:
+            continue
+
+        class R(ast.NodeTransformer):
+            def visit_Compare(self, node):
+                self.generic_visit(node)
+                if len(node.ops) != 1:
+                    return node
+                l, r, op = node.left, node.comparators[0], node.ops[0]
+                if isinstance(l, ast.Constant) and isinstance(r, ast.Name):
+                    l, r = r, l
+                if not (isinstance(l, ast.Name) and l.id in flags and
+                        isinstance(r, ast.Constant) and
+                        isinstance(r.value, bool) and
+                        isinstance(op, (ast.Is, ast.IsNot, ast.Eq,
+                                        ast.NotEq))):
+                    return node
+                positive = isinstance(op, (ast.Is, ast.Eq)) == r.value
+                nm = ast.copy_location(ast.Name(id=l.id, ctx=ast.Load()),
+                                       node)
+                if positive:
+                    return nm
+                return ast.copy_location(
+                    ast.UnaryOp(op=ast.Not(), operand=nm), node)
+        fn.body = [R().visit(s_) for s_ in fn.body]
+    ast.fix_missing_locations(tree)
+
+
 def _split_parallel_assignments(tree):
     """Source normal form: ``a, b = x, y`` (displays of equal length, no
     starred part) reads ``a = x`` followed by ``b = y`` when no later value
@@ -836,6 +928,7 @@ def _normalise(tree):
     _inline_method_aliases(tree)
     _inline_slice_objects(tree)
     _inline_local_constants(tree)
+    _bool_flag_tests(tree)
     _hoist_walrus(tree)
     _struct_objects(tree)
     _UnpackSlice().visit(tree)
